@@ -153,4 +153,50 @@ theorem finalTbl_offs (c : WCfg) (st : WSt) (hinv : StrInv st) : OffsFrom 0 (fin
     · exact hinv.offs
     · trivial
 
+/-! ### Option fields and the whole run (used by C07) -/
+
+/-- `wbxml_tree_to_wbxml`, unfolded once. -/
+theorem treeToWbxml_eq (cfg : X2WCfg) (t : Tree) :
+    treeToWbxml cfg t =
+      match t.lang with
+      | none => .error (.code EW.badParameter)
+      | some lang =>
+        match t.root with
+        | none => .error (.ub "tree without root node (NULL dereferenced)")
+        | some r =>
+          encNodeG (dcfgOf cfg lang) none true r (docStartW (dcfgOf cfg lang) r) >>= fun st =>
+            pure ((fillHeaderW (dcfgOf cfg lang) st).1 ++ st.out) := by
+  unfold treeToWbxml
+  cases t.lang with
+  | none => rfl
+  | some lang =>
+    simp only
+    unfold encodeDocW
+    cases t.root with
+    | none => rfl
+    | some r => rfl
+
+theorem dcfgOf_version_eq (cfg : X2WCfg) (v : Nat) (lang : Lang) :
+    dcfgOf { cfg with version := v } lang = { dcfgOf cfg lang with version := v } := by
+  unfold dcfgOf wcfgOf deriveCfg
+  simp only
+  split <;> rfl
+
+theorem docStartW_version (c : WCfg) (v : Nat) (r : Node) : docStartW { c with version := v } r = docStartW c r := rfl
+
+theorem hdrOf_version (c : WCfg) (v : Nat) (st : WSt) :
+    hdrOf { c with version := v } st = { hdrOf c st with version := v } := rfl
+
+theorem dcfgOf_anonymous_core (cfg : X2WCfg) (a : Bool) (lang : Lang) :
+    core (dcfgOf { cfg with anonymous := a } lang) = core (dcfgOf cfg lang) := by
+  unfold dcfgOf wcfgOf deriveCfg core
+  simp only
+  split <;> rfl
+
+theorem docStartW_core (c c' : WCfg) (h : core c = core c') (r : Node) : docStartW c r = docStartW c' r := by
+  have h1 : c.useStrtbl = c'.useStrtbl := by have := congrArg WCfg.useStrtbl h; exact this
+  have h2 : c.lang = c'.lang := by have := congrArg WCfg.lang h; exact this
+  unfold docStartW
+  rw [h1, h2]
+
 end Wbxml.Lemmas.EncW
